@@ -11,6 +11,25 @@ CHECKS = {
          "DESIGN.md section 5, C04"),
 }
 
+CHECKS.update({
+ "C02": ("exhaustive small-scope enumeration of single-operation programs + proptest sampling; oracle = forward-mode dual numbers through the reference definition (J^T seed)",
+         "Bounded generated-input search over every operation x parameterisation x operand shapes (all shapes/pairs of rank<=3 quick, <=4 thorough, sizes 1..3; matmul/conv configuration grids) x tracked subsets with non-uniform seeds, plus sampled sizes, values, exponents and seeds. Exhaustive inside the stated grids; no proof.",
+         "Trusted: reference operation definitions and dual-number arithmetic in harness/refmodel (unit-tested against finite differences and corgi's own test expectations). Exact data compared bitwise, otherwise magnitude-scaled tolerance 1e-9.",
+         "DESIGN.md section 5, C02"),
+ "C05": ("configuration-grid enumeration + proptest sampling against a triple-loop reference (differential oracle), refusal <=> panic",
+         "Bounded generated-input search: (rows,inner,cols) x transpose flags x 7x7 leading-dimension patterns x additive-term shapes x rank-1 forms, admissible and inadmissible variants; exact integer data compared bitwise.",
+         "Trusted: the reference matmul in harness/refmodel; catch_unwind as the observation of refusal. Two rank-1 operands with a transpose flag are outside the property's domain.",
+         "DESIGN.md section 5, C05"),
+ "C06": ("configuration-grid enumeration + proptest sampling against the six-loop sliding-window definition (differential oracle)",
+         "Bounded generated-input search over batch shape, depth, image size, filter count/size and both strides (images <=4x4 quick, <=6x6 thorough enumerated; up to 9x9 sampled); exact data compared bitwise.",
+         "Trusted: the reference convolution in harness/refmodel. Filters larger than the image and zero strides are outside the domain.",
+         "DESIGN.md section 5, C06"),
+ "C07": ("exhaustive small-scope enumeration + proptest sampling against reference definitions, plus validity predicates for softmax",
+         "Bounded generated-input search: all shapes of rank 1..4 / sizes 1..3 with every k, every reshape target (and refused targets) and every point-wise function; larger shapes and random values sampled.",
+         "Trusted: reference definitions in harness/refmodel (same std float functions evaluated in f64).",
+         "DESIGN.md section 5, C07"),
+})
+
 NOT_YET = {}
 
 def main():
